@@ -19,7 +19,7 @@ LEVEL_NOTE = ('Partial in one respect: fields/segments with exactly one element 
               'size-1 array as a broadcastable scalar; open known finding KF-C07-one-pixel-segment). Trusted: Lean kernel, py2lean subset '
               'semantics, NumPy slicing/broadcast/exp semantics as modelled, generator coverage of the correspondence.')
 TECHNIQUE = 'Lean 4 proof (omega/induction/ring) over translator-regenerated kernels + hand model with differential correspondence'
-GEN = ['Extent', 'FieldIdx', 'Helper', 'PlanePx', 'PlaneHandover', 'PlanePhase']
+GEN = ['Extent', 'FieldIdx', 'Helper', 'PlanePx', 'PlaneHandover', 'PlanePhase', 'FieldMerge', 'FieldDispatch', 'FieldAccum']
 OPS = ['C07', 'C03']
 RULE = ('cases: chains of 1..4 planes on a fresh wavefront, the class drawn per plane among Plane, Pupil, Image, Tilt, Plane(ptype=pupil) within the '
         'admitted plane types, scalar/array amplitude, OPD and None/scalar/2-D/3-D mask in every combination (segments 1..5, overlapping boxes, '
